@@ -105,30 +105,30 @@ macro_rules! aes_size {
             if want("C16") {
                 let mut rng = Rng::for_label(concat!("C16/aes/", stringify!($c)));
                 let keys: Vec<Vec<u8>> = (0..8).map(|_| rng.plain($kl)).collect();
-                let key = |k: &[u8]| Key::<$c>::try_from(k).unwrap();
+                
                 scope("aes", stringify!($c));
                 set_prop("C16");
                 c16_core::<$c>(
                     &[
-                        ("from(enc)", &|k| Some($c::from($e::new(&key(k))))),
-                        ("from(&enc)", &|k| Some($c::from(&$e::new(&key(k))))),
-                        ("from(&enc).clone()", &|k| Some($c::from(&$e::new(&key(k))).clone())),
-                        ("from(&enc.clone())", &|k| Some($c::from(&$e::new(&key(k)).clone()))),
+                        ("from(enc)", &|k| Some($c::from($e::new(kref::<$c>(k))))),
+                        ("from(&enc)", &|k| Some($c::from(&$e::new(kref::<$c>(k))))),
+                        ("from(&enc).clone()", &|k| Some($c::from(&$e::new(kref::<$c>(k))).clone())),
+                        ("from(&enc.clone())", &|k| Some($c::from(&$e::new(kref::<$c>(k)).clone()))),
                     ],
                     &keys,
                 );
                 scope("aes", stringify!($e));
                 set_prop("C16");
-                c16_core::<$e>(&[("new", &|k| Some($e::new(&key(k)))), ("clone", &|k| Some($e::new(&key(k)).clone()))], &keys);
+                c16_core::<$e>(&[("new", &|k| Some($e::new(kref::<$c>(k)))), ("clone", &|k| Some($e::new(kref::<$c>(k)).clone()))], &keys);
                 scope("aes", stringify!($d));
                 set_prop("C16");
                 c16_core::<$d>(
                     &[
-                        ("new", &|k| Some($d::new(&key(k)))),
-                        ("clone", &|k| Some($d::new(&key(k)).clone())),
-                        ("from(enc)", &|k| Some($d::from($e::new(&key(k))))),
-                        ("from(&enc)", &|k| Some($d::from(&$e::new(&key(k))))),
-                        ("from(&enc).clone()", &|k| Some($d::from(&$e::new(&key(k))).clone())),
+                        ("new", &|k| Some($d::new(kref::<$c>(k)))),
+                        ("clone", &|k| Some($d::new(kref::<$c>(k)).clone())),
+                        ("from(enc)", &|k| Some($d::from($e::new(kref::<$c>(k))))),
+                        ("from(&enc)", &|k| Some($d::from(&$e::new(kref::<$c>(k))))),
+                        ("from(&enc).clone()", &|k| Some($d::from(&$e::new(kref::<$c>(k))).clone())),
                     ],
                     &keys,
                 );
